@@ -64,16 +64,18 @@ CodeClasses == {"PAC", "MIDROW", "CONTROL", "ATTR", "UNKNOWN", "PAD"}
 WordToks(x) ==
   LET b1 == B1(x) b2 == B2(x) cls == Class(b1, b2) IN
   IF cls \in CodeClasses THEN <<[k |-> "G", x |-> x]>>
-  ELSE IF cls = "TEXT" THEN (IF b2 = 0 THEN <<[k |-> "C", x |-> x, cp |-> {StdChar(b1)}]>>
-                              ELSE <<[k |-> "C", x |-> x, cp |-> {StdChar(b1)}], [k |-> "C", x |-> x, cp |-> {StdChar(b2)}]>>)
-  ELSE IF cls = "SPECIAL" THEN <<[k |-> "C", x |-> x, cp |-> {SpecialChar(b2)}]>>
-  ELSE <<[k |-> "C", x |-> x, cp |-> {}]>>        \* {} = any single character: the glyph is judged in the word check
+  ELSE IF cls = "TEXT" THEN (IF b2 = 0 THEN <<[k |-> "C", x |-> x, cp |-> {StdChar(b1)}, code |-> FALSE]>>
+                              ELSE <<[k |-> "C", x |-> x, cp |-> {StdChar(b1)}, code |-> FALSE], [k |-> "C", x |-> x, cp |-> {StdChar(b2)}, code |-> FALSE]>>)
+  ELSE IF cls = "SPECIAL" THEN <<[k |-> "C", x |-> x, cp |-> {SpecialChar(b2)}, code |-> TRUE]>>
+  ELSE <<[k |-> "C", x |-> x, cp |-> {}, code |-> TRUE]>>        \* {} = any single character: the glyph is judged in the word check
 
 RECURSIVE LineToks(_)
 LineToks(ws) == IF ws = <<>> THEN <<>> ELSE WordToks(Head(ws)) \o LineToks(Tail(ws))
 
 TokOk(exp, got, show) ==
-  IF exp.k = "C" THEN got.k = "C" /\ (exp.cp = {} \/ got.cp \in exp.cp)
+  IF exp.k = "C" THEN /\ got.k = "C" /\ (exp.cp = {} \/ got.cp \in exp.cp)
+                      \* a special / extended character is a code: with channels shown it carries its own channel
+                      /\ (show = 1 /\ exp.code) => got.ch = Channel(B1(exp.x), B2(exp.x))
   ELSE LET b1 == B1(exp.x) b2 == B2(exp.x) cls == Class(b1, b2) IN
        /\ got.k = "G"
        /\ cls = "PAD" => got.rest = "" /\ got.row = -1
